@@ -141,8 +141,9 @@ PROPS["C11"] = {
              "Relay: otr3 A and B each in its own session with a reference-party half of the relay (own key), SMP TLVs forwarded verbatim both ways, both victims answer; no Success ever, also with equal secrets. "
              "Non-trivial: rotations happened around the run or several runs back to back; relay: the run reached the final comparison/verification."),
     "assumptions": COMMON_ASSUME,
-    "exhaustive_checks": ["C11short"],
+    "exhaustive_checks": ["C10fragsweep", "C11short"],
     "tests": [
+        {"name": "TestProp_C10_FragSweep", "kind": "plain", "quick": {"shards": 8, "timeout": 600}, "thorough": {"shards": 8, "timeout": 3000}},
         {"name": "TestProp_C11_ShortValues", "kind": "plain", "quick": {"shards": 13, "timeout": 900}, "thorough": {"shards": 16, "timeout": 3000}},
         {"name": "TestProp_C11_Session", "quick": {"shards": 8, "checks": 12, "timeout": 400}, "thorough": {"shards": 16, "checks": 200, "timeout": 3000}},
         {"name": "TestProp_C11_Relay", "quick": {"shards": 8, "checks": 12, "timeout": 400}, "thorough": {"shards": 16, "checks": 200, "timeout": 3000}},
@@ -161,8 +162,9 @@ PROPS["C12"] = {
              "C12blocks/C12longblocks: messages that deviate by the company they keep - every block of one or two TLVs out of {disconnect, padding, unknown, SMP1, SMP1Q, SMP2, SMP3, SMP4, abort} (well-formed messages of a run between two reference provers) "
              "in each honest pre-state (idle, asked, answered, started), both versions, and generated blocks of 3-6 TLVs; no success, no crash, and a fresh honest run each way succeeds afterwards, in the next session when the block ended this one."),
     "assumptions": COMMON_ASSUME,
-    "exhaustive_checks": ["C12degenerate", "C12fields", "C12usercalls", "C12blocks"],
+    "exhaustive_checks": ["C12sync", "C12degenerate", "C12fields", "C12usercalls", "C12blocks"],
     "tests": [
+        {"name": "TestProp_C12_Sync", "kind": "plain", "quick": {"shards": 16, "timeout": 900}, "thorough": {"shards": 16, "timeout": 3000}},
         {"name": "TestProp_C12_Blocks", "kind": "plain", "quick": {"shards": 8, "timeout": 600}, "thorough": {"shards": 16, "timeout": 3000}},
         {"name": "TestProp_C12_LongBlocks", "quick": {"shards": 2, "checks": 40, "timeout": 600}, "thorough": {"shards": 8, "checks": 1500, "timeout": 3000}},
         {"name": "TestProp_C12_Deviant", "quick": {"shards": 8, "checks": 10, "timeout": 500}, "thorough": {"shards": 16, "checks": 150, "timeout": 3000}},
@@ -243,8 +245,9 @@ PROPS["C14"] = {
              "Receive: pieces of plaintext payloads (handed back as plaintext on completion, so processing is observable) and of genuine data messages of an authenticated reference peer; events next/restart/wrong total/duplicate/skip/index 0/k>n/foreign instance/unparsable/whole plaintext/whole data message; both header syntaxes. "
              "Oracle: Receive returns a plaintext exactly when the model completes and it equals the model's buffer (a data message completed twice is refused as a replay). Non-trivial: send >=3 pieces; receive: a fragment event after a completion or an out-of-order event mid-stream."),
     "assumptions": COMMON_ASSUME + ["parties hold a long-term key (a key-less conversation cannot commit to the fragment's version)"],
-    "exhaustive_checks": ["C14sizes"],
+    "exhaustive_checks": ["C14unbound", "C14sizes"],
     "tests": [
+        {"name": "TestProp_C14_Unbound", "kind": "plain", "quick": {"shards": 2, "timeout": 600}, "thorough": {"shards": 2, "timeout": 3000}},
         {"name": "TestProp_C14_Send", "quick": {"shards": 8, "checks": 40, "timeout": 500}, "thorough": {"shards": 16, "checks": 700, "timeout": 3000}},
         {"name": "TestProp_C14_Sizes", "kind": "plain", "quick": {"shards": 4, "timeout": 500}, "thorough": {"shards": 8, "timeout": 3000}},
         {"name": "TestProp_C14_Recv", "quick": {"shards": 4, "checks": 250, "timeout": 500}, "thorough": {"shards": 8, "checks": 6000, "timeout": 3000}},
@@ -308,8 +311,9 @@ PROPS["C06"] = {
              "for key-exchange messages: bit flip, truncation, tags, version, replay, re-typed; source = the message in flight towards the receiver or an earlier one of the peer. The input must qualify as rejected (no plaintext, no event-worthy effect, nothing to send but an error reply). "
              "Enumeration: handshake delivered up to k=0..5 messages x receiver x 6 kinds x source x truncation points, then the rest of the handshake and traffic. Non-trivial: receiver was encrypted, mid-SMP or mid-key-exchange and the continuation delivered >=2 texts each way."),
     "assumptions": COMMON_ASSUME,
-    "exhaustive_checks": ["C06akestates", "C06firstuse"],
+    "exhaustive_checks": ["C06akelossy", "C06akestates", "C06firstuse"],
     "tests": [
+        {"name": "TestProp_C06_AKELossy", "kind": "plain", "quick": {"shards": 16, "timeout": 900}, "thorough": {"shards": 16, "timeout": 3000}},
         {"name": "TestProp_C06_FirstUse", "kind": "plain", "quick": {"shards": 8, "timeout": 600}, "thorough": {"shards": 8, "timeout": 3000}},
         {"name": "TestProp_C06_Twin", "quick": {"shards": 8, "checks": 60, "timeout": 600}, "thorough": {"shards": 16, "checks": 1200, "timeout": 3000}},
         {"name": "TestProp_C06_AKEStates", "kind": "plain", "quick": {"shards": 8, "timeout": 600}, "thorough": {"shards": 16, "timeout": 3000}},
@@ -372,16 +376,16 @@ _EXTRA = {
     "C05": " Added: randomness faults (one read fails) in the middle of histories, followed by replays.",
     "C06": " Added: rejected-input kind 'length prefix' (a DATA/MPI length of an AKE message altered); byte-exact comparison of the wire output whenever both worlds have identical randomness histories; C06firstuse enumerates damaged copies that arrive before the genuine message and are the first use of their key pair, followed by enough traffic to retire that pair.",
     "C09": " Added: randomness faults: a rotation that did not happen must not lead to disclosure.",
-    "C10": " Added: every 20 bytes of the old-MAC-keys field must be a MAC key of a key pair of the discloser; the reference may open the conversation with the specification's whitespace tag (five forms, version 1 group first where present).",
+    "C10": " Added: every 20 bytes of the old-MAC-keys field must be a MAC key of a key pair of the discloser; the reference may open the conversation with the specification's whitespace tag (five forms, version 1 group first where present); C10fragsweep: one text sent at every fragment size from the minimum to beyond the encoded length, reassembled and read by the reference.",
     "C11": " Added: C11short - each of 26 values of the reference prover's messages forced to have a zero top byte (one byte shorter as MPI) by re-drawing its randomness; equal secrets must succeed, different ones fail.",
-    "C14": " Added: a piece with the right index in the other version's header format and a payload of its own arrives before the genuine last piece.",
+    "C14": " Added: a piece with the right index in the other version's header format and a payload of its own arrives before the genuine last piece; C14unbound: pieces of two peer instances interleaved at a conversation that knows no peer instance yet (every order-preserving interleaving of 2- and 3-piece messages, with one repetition).",
     "C16": " Added: form 7 - a D-H Commit of a forbidden version (genuine, or relabelled and correctly addressed) after 0..5 handshake messages and in the established session: no reply, no state change, the handshake completes and text flows.",
     "C18": " Added: End() closes the books for resending; C18faults (failing read at every position of a key exchange) and C18ended (the peer's error message at five points around peer-ended/End()/new session) are enumerated.",
     "C19": " Added: runs of forgeries walking over the acceptable key-id pairs, unauthenticated fragment floods with reserved/foreign/unparsable tags, error-request plus re-key cycles with a silent user, listen-only parties whose only output is the heartbeat.",
     "C20": " Added: the application's memory is judged: pass-phrase buffers shared by all pairs must be unchanged, and every message or plaintext handed out by the library must still read as it did when returned (checked after each solo run and after the concurrent rounds); every pair provokes a generated error message while encrypted.",
     "C08": " Added: C08faults - one party's randomness fails from read k on (k=0..14, persistent or one-shot, error or short read) during a handshake; secrets of an exchange the party has left must be gone, decided by presenting the refused final message once more on a healed source.",
     "C07": " Added: for Send under required encryption the trigger is repeated (1x quick, 2x thorough) at every point of every schedule.",
-    "C12": "",
+    "C12": " Added: C12sync - two real otr3 parties: every sequence of up to 3 (thorough: 4) steps over {start, answer asked-or-not, abort, deliver, lose} by either user, then AbortAuthentication and a fresh run by either user, which must succeed on both sides; a StartAuthenticate that fails for lack of randomness, idle or mid-run.",
     "C04": " Added: 'sk' arms a D-H key whose public value has a zero top byte; session configurations arm 0-3 such keys per party in a quarter of the cases.",
 }
 for _k, _v in _EXTRA.items():
